@@ -355,6 +355,7 @@ type c29Env struct {
 	evm   *vm.EVM
 	tr    *c29Tracer
 	rules params.Rules
+	al    types.AccessList // addresses warmed by the transaction's access list
 }
 
 func newC29Env(rs progx.RuleSet) (*c29Env, error) {
@@ -415,7 +416,7 @@ func (e *c29Env) run(wrapper string, caller, callee []byte) error {
 	for k := range e.tr.seen {
 		delete(e.tr.seen, k)
 	}
-	e.st.Prepare(e.rules, progx.AddrOrigin, e.evm.Context.Coinbase, &progx.AddrA, vm.ActivePrecompiles(e.rules), nil)
+	e.st.Prepare(e.rules, progx.AddrOrigin, e.evm.Context.Coinbase, &progx.AddrA, vm.ActivePrecompiles(e.rules), e.al)
 	e.st.SetCode(progx.AddrB, callee, tracing.CodeChangeUnspecified)
 	value := uint256.NewInt(0)
 	if wrapper == "DIRECT" {
@@ -504,6 +505,7 @@ func TestVerif_C29(t *testing.T) {
 			}
 		}
 		target := c29ReplayTarget()
+		c29Adjacent(r, forks, target) // small; first, so that it completes on a loaded machine
 		total := map[string]int64{}
 		var tot struct{ failed, failedEff, static, staticWrite, createFailed int64 }
 		mu := make(chan struct{}, 1)
@@ -582,4 +584,114 @@ func TestVerif_C29(t *testing.T) {
 		r.OutcomeN("static:write-attempts", tot.staticWrite)
 		r.OutcomeN("frames:create-failed", tot.createFailed)
 	})
+}
+
+// ---------------------------------------------------------------------------
+// Adjacent-write family: the outer frame's LAST state-changing instruction X is
+// immediately followed by a call into the SAME storage context (re-entrant CALL
+// to itself, CALLCODE, DELEGATECALL; callee pre-warmed by the access list, zero
+// value: nothing is journalled between X and the callee's first instruction)
+// whose FIRST instruction is Y, for every pair (X,Y) of the unit alphabet, and
+// which then fails. Any merging / eliding of journal entries across the frame's
+// snapshot shows as a difference at the frame's exit.
+
+func c29AdjCaller(wrapper string, x []byte, calleeBody []byte) (caller, callee []byte) {
+	call := func(op byte, a common.Address) []byte {
+		return progx.New().CallKind(op, a, nil, 0).Op(progx.POP, progx.STOP).Bytes()
+	}
+	switch wrapper {
+	case "ADJ-CALLCODE":
+		return progx.Concat(x, call(progx.CALLCODE, progx.AddrB)), calleeBody
+	case "ADJ-DELEGATECALL":
+		return progx.Concat(x, call(progx.DELEGATECALL, progx.AddrB)), calleeBody
+	}
+	// ADJ-CALLSELF: A calls itself; on re-entry (CALLER == ADDRESS) it runs the callee body
+	outer := progx.Concat(x, call(progx.CALL, progx.AddrA))
+	const hdr = 1 + 1 + 1 + 3 + 1 // CALLER ADDRESS EQ PUSH2 JUMPI
+	off := hdr + len(outer)
+	p := progx.New().Op(progx.CALLER, progx.ADDRESS, progx.EQ).Op(progx.PUSH2, byte(off>>8), byte(off)).Op(progx.JUMPI)
+	p.Raw(outer).Op(progx.JUMPDEST).Raw(calleeBody)
+	return p.Bytes(), []byte{0}
+}
+
+func c29Adjacent(r *mc.R, forks []string, target *c29Case) {
+	units := append(c29Units(),
+		c29Unit{"TSTORE(0,4)", progx.New().Tstore(0, 4).Bytes()},
+		c29Unit{"SSTORE(0,8)", progx.New().Sstore(0, 8).Bytes()},
+		c29Unit{"NONE", nil})
+	since := map[string]string{"TSTORE(0,3)": "Cancun", "TSTORE(0,4)": "Cancun", "CREATE2": "Constantinople"}
+	wrappers := []string{"ADJ-CALLSELF", "ADJ-CALLCODE", "ADJ-DELEGATECALL"}
+	terms := []string{"REVERT", "INVALID", "OOG", "STOP"}
+	r.Bound("adjacent.units", len(units))
+	r.Bound("adjacent.wrappers", wrappers)
+	r.Bound("adjacent.terminators", terms)
+	r.Assume("adjacent-write family: caller = X ++ call into the same storage context {CALL to itself, CALLCODE, DELEGATECALL; zero value, callee warm through the access list} for every X of the alphabet valid in the rule set (incl. none); callee = Y ++ {REVERT, INVALID, out of gas, STOP} for every Y; same frame-exit oracle")
+	type shard struct {
+		fork    string
+		wrapper string
+		x       int
+	}
+	var shards []shard
+	for _, f := range forks {
+		for _, w := range wrappers {
+			for x := range units {
+				shards = append(shards, shard{f, w, x})
+			}
+		}
+	}
+	total := map[string]int64{}
+	var failed, failedEff int64
+	mu := make(chan struct{}, 1)
+	mu <- struct{}{}
+	r.Parallel(len(shards), func(si int) {
+		sh := shards[si]
+		X := units[sh.x]
+		if target != nil && (target.Fork != sh.fork || target.Wrapper != sh.wrapper || len(target.Units) != 2 || target.Units[0] != X.name) {
+			return
+		}
+		rs := progx.Fork(sh.fork)
+		if f, ok := since[X.name]; (ok && !rs.At(f)) || X.name == "SELFDESTRUCT(C)" {
+			return // the outer frame must be a valid, continuing program
+		}
+		env, err := newC29Env(rs)
+		if err != nil {
+			r.Violation("harness-setup", err.Error(), nil)
+			return
+		}
+		env.al = types.AccessList{{Address: progx.AddrB}}
+		var evals int64
+		for _, Y := range units {
+			for _, term := range terms {
+				if target != nil && (target.Units[1] != Y.name || target.Term != term) {
+					continue
+				}
+				body := c29Callee([]c29Unit{Y}, []int{0}, term)
+				caller, callee := c29AdjCaller(sh.wrapper, X.code, body)
+				verr := mc.Safely(func() error { return env.run(sh.wrapper, caller, callee) })
+				if verr != nil && strings.HasPrefix(verr.Error(), "panic:") {
+					env, _ = newC29Env(rs)
+					env.al = types.AccessList{{Address: progx.AddrB}}
+				}
+				if verr != nil || r.Replaying() {
+					r.Case(c29Case{sh.fork, sh.wrapper, 0, []string{X.name, Y.name}, term}, func() error { return verr })
+				} else {
+					evals++
+				}
+				r.DistinctHash(mc.Hash64(fmt.Sprintf("adj|%s|%s|%s|%s|%s", sh.fork, sh.wrapper, X.name, Y.name, term)))
+			}
+		}
+		r.Eval(evals)
+		<-mu
+		for k, v := range env.tr.outcome {
+			total["adjacent:"+k] += v
+		}
+		failed += env.tr.nFailed
+		failedEff += env.tr.nFailedWithEffects
+		mu <- struct{}{}
+	})
+	for k, v := range total {
+		r.OutcomeN(k, v)
+	}
+	r.OutcomeN("adjacent:frames-failed", failed)
+	r.OutcomeN("adjacent:frames-failed-after-executing-effectful-instructions", failedEff)
 }
